@@ -95,7 +95,7 @@ def profile(name):
         p['p_batch_source'] = 0.25
         p['p_initial_value'] = 0.4
         p['p_poke'] = 0.5
-        p['ops_w'].update({'work_order': 4})
+        p['ops_w'].update({'work_order': 4, 'create_asset': 1.5})
     elif name == 'records':       # C15
         p['p_maintainer'] = 0.95
         p['p_resources'] = 0.8
@@ -445,6 +445,9 @@ class Gen:
             elif op == 'offset_cycle':
                 e['target'] = rng.choice(handlers)
                 e['offset'] = rng.choice([0.5, 1, -0.5, -1, -5, 0.25])
+            elif op == 'create_asset':
+                e['what'] = rng.choice(['maintainer', 'handler'])
+                e['value'] = rng.choice([10, -2.5, 100, 0.5, 0])
             elif op == 'rewire':
                 a, b = rng.sample(free, 2)
                 if self.order[a] > self.order[b]:
